@@ -269,8 +269,13 @@ class SymExec:
             g = m.resolve_method(self.func.cls.name, fn.attr)
         elif isinstance(fn, ast.Name):
             g = m.funcs.get('%s.%s' % (self.func.module.name, fn.id))
+            if g is None and fn.id not in ELEMENTWISE:
+                # a small wrapper imported from another module of the package (from pkg.util import fmt1)
+                g = _imported_wrapper(m, self.func.module, fn.id)
         if g is None or g.qual == self.func.qual or isinstance(g.node, ast.Lambda) or g.qual in self.no_expand:
             return None
+        if g.name in ELEMENTWISE and g.cls is None and self.func.name not in ELEMENTWISE:
+            return None         # the number formatter stays a call (one text per element: R-EXH.elementwise)
         if g.kind in ('property', 'cached_property', 'setter'):
             return None
         if self.private_only and not g.name.startswith('_'):
@@ -1387,6 +1392,30 @@ def _subst_inner(sx, n, env2):
     return new
 
 
+_IMPORTED = {}
+
+
+def _imported_wrapper(m, module, name):
+    """the function `name` imported into `module` from another module of the package, when it is a small
+    wrapper (no loops, at most three statements); None otherwise"""
+    key = (id(module), name)
+    if key in _IMPORTED:
+        return _IMPORTED[key]
+    res = None
+    for st in module.tree.body:
+        if isinstance(st, ast.ImportFrom) and any((a.asname or a.name) == name for a in st.names):
+            orig = [a.name for a in st.names if (a.asname or a.name) == name][0]
+            src = (st.module or '').split('.')[-1]
+            g = m.funcs.get('%s.%s' % (src, orig))
+            if g is not None and g.cls is None:
+                body = [b for b in g.body()]
+                if len(body) <= 3 and not any(isinstance(n, (ast.For, ast.While, ast.Yield, ast.YieldFrom, ast.Try, ast.With))
+                                              for n in ast.walk(g.node)):
+                    res = g
+    _IMPORTED[key] = res
+    return res
+
+
 def _never_iterates(it):
     """an iterable that is known to be empty: [] / () / zip(..., [], ...) / enumerate([])"""
     if isinstance(it, (ast.List, ast.Tuple)) and not it.elts:
@@ -2221,6 +2250,19 @@ def row_values(e):
         return written_values(e.args[0])
     if isinstance(e, ast.JoinedStr):
         return [v.value for v in e.values if isinstance(v, ast.FormattedValue)]
+    if isinstance(e, ast.Call) and isinstance(e.func, ast.Attribute) and e.func.attr == 'format' and not e.keywords and \
+       isinstance(e.func.value, ast.Constant) and isinstance(e.func.value.value, str):
+        # 'template {} {}'.format(a, b): the positional values (a starred literal is spread)
+        vals = []
+        for a in e.args:
+            if isinstance(a, ast.Starred):
+                if isinstance(a.value, (ast.Tuple, ast.List)):
+                    vals += list(a.value.elts)
+                else:
+                    vals += written_values(a.value)
+            else:
+                vals.append(a)
+        return vals
     return None
 
 
